@@ -243,9 +243,10 @@ class CoxeterGroup:
 
         # a degenerate form has no diagonalizing change of basis: diagonalize_form
         # then returns a singular W, and Winv is not its inverse
-        # (the tolerance follows the precision of the number type in use)
+        # (the tolerance follows the precision of the Cartan matrix: W may
+        # be stored in a wider type than the one it was computed in)
         try:
-            tolerance = max(1e-10, 1e4 * np.finfo(np.asarray(W).dtype).eps)
+            tolerance = max(1e-10, 1e4 * np.finfo(np.asarray(cartan_matrix).dtype).eps)
         except ValueError:
             tolerance = 1e-10
 
